@@ -1,683 +1,23 @@
 /-
-C15 — labelled groups select exactly what labels say, in deterministic order; the predefined
-index-based labellers only re-index.  Property theorems.  Core Lean only.
+C15 — labelled groups select exactly what labels say, in deterministic order; the predefined index-based
+labellers only re-index.  Property theorems, assembled:
 
-Reading of the property text used below (see also harness/c15.py INFO):
-* "every point always carries at least one label": `Covered`, an invariant of every sequence of succeeding
-  operations (`run_invariant`); refuted by witness for `add_label` as coded (`addLabelCoded_breaks_cover`).
-* "exactly the points under the requested labels with the edges among them, the remaining labels restricted
-  accordingly and in their original order": `select_*`, `withoutLabels_*`, `getLabel_exact`, `removeLabel_spec`,
-  `addLabel_spec`.
-* "identical from run to run": the repaired operations are functions of their arguments; `without_labels` as
-  coded depends on the set iteration order (`withoutLabelsCoded_order_refuted`, `withoutLabelsCoded_run_to_run`).
-* labellers: `labeller_*`, consumed with the regenerated obligations `GenProps/C15.lean`.
+* `Props/C15Base.lean`    selection / `get_label` / `add_label` / `remove_label`, the coverage invariant over
+                          operation sequences, the refutations of the behaviour coded before the repairs, labellers
+                          as `gather` (size, commutation, distinct input points, every output point labelled);
+* `Props/C15Sel.lean`     selection exactly under the code's guards (`select_iff`, `select_error_iff`), permuted and
+                          duplicated requests, `without_labels` of every label, unknown names, the constructors
+                          (`construct_iff`, `initFromIndices_spec`), the `str` form;
+* `Props/C15Rename.lean`  the determinism clause: every operation sequence commutes with every injective renaming
+                          of the labels (no dependence on hashes or on how names compare);
+* `Props/C15Lab.lean`     the labelled result reproduces the labeller's table on every input (masks, points under
+                          each label — also in gather form —, connectivity through the index list), selection
+                          after labelling;
+* `Props/C15Entry.lean`   `labeller_func`'s wrapper per input kind / `return_mapping`, and `labeller()` on a landmark
+                          manager (source and all other groups untouched, exactly the new group written).
 -/
-import MenpoModel.Lemmas.C15Dict
-
-namespace MenpoModel.C15
-
-/-! ### selection (`_new_group_with_only_labels`) -/
-
-theorem selMask_length {α} (g : LGraph α) (req : List String) : (selMask g req).length = g.pts.length := by
-  simp [selMask, orMasks_length]
-
-/-- the selection mask: a point is kept iff it lies under one of the requested labels -/
-theorem selMask_spec {α} (g : LGraph α) (req : List String) (v : Nat) :
-    (selMask g req)[v]? = some true ↔
-      v < g.pts.length ∧ ∃ l ∈ req, ∃ m, lookup g.labels l = some m ∧ m[v]? = some true := by
-  unfold selMask
-  rw [orMasks_get]
-  simp only [List.mem_filterMap]
-  constructor
-  · rintro ⟨hv, m, ⟨l, hl, hm⟩, hmv⟩
-    exact ⟨hv, l, hl, m, hm, hmv⟩
-  · rintro ⟨hv, l, hl, m, hm, hmv⟩
-    exact ⟨hv, m, ⟨l, hl, hm⟩, hmv⟩
-
-/-- the restricted label set of a selection covers every selected point: the constructor's
-`_verify_all_labels_masked` can never fire inside `_new_group_with_only_labels` -/
-theorem restrict_covered {α} (g : LGraph α) (hwf : WF g) (req : List String) :
-    coveredB (maskFilter g.pts (selMask g req)).length (restrictLabels g req (selMask g req)) = true := by
-  rw [coveredB_iff]
-  intro j hj
-  obtain ⟨v, hv, hr⟩ := maskFilter_surj g.pts (selMask g req) (selMask_length g req).symm j hj
-  obtain ⟨_, l, hl, m, hm, hmv⟩ := (selMask_spec g req v).mp hv
-  refine ⟨(l, maskFilter m (selMask g req)), ?_, ?_⟩
-  · unfold restrictLabels
-    apply List.mem_map.mpr
-    exact ⟨l, (mem_dedup l req).mpr hl, by simp [hm]⟩
-  · have hlen : m.length = (selMask g req).length := by
-      rw [selMask_length]; exact hwf.maskLen _ (lookup_eq_some_mem hm)
-    show (maskFilter m (selMask g req))[j]? = some true
-    rw [← hr, maskFilter_rank m _ v hlen hv, hmv]
-
-/-- **what a successful selection returns** (code path unfolded: the all-true shortcut of `from_mask`
-and the constructor checks are discharged) -/
-theorem select_ok {α} {g g' : LGraph α} (hwf : WF g) {req : List String} (h : select g req = .ok g') :
-    (∀ l ∈ req, l ∈ g.names) ∧ (selMask g req).any id = true ∧
-    g'.pts = maskFilter g.pts (selMask g req) ∧
-    g'.edges = inducedEdges (selMask g req) g.edges ∧
-    g'.labels = restrictLabels g req (selMask g req) := by
-  unfold select at h
-  split at h
-  · cases h
-  · rename_i hk
-    simp only at h
-    split at h
-    · cases h
-    · rename_i hany
-      rw [fromMask_eq _ _ _ (selMask_length g req).symm hwf.edgesIn] at h
-      simp only [construct] at h
-      split at h
-      · cases h
-      · split at h
-        · cases h
-        · injection h with h
-          subst h
-          refine ⟨?_, by simpa using hany, rfl, rfl, rfl⟩
-          intro l hl
-          simp only [List.any_eq_true, not_exists, not_and, Bool.not_eq_true] at hk
-          have := hk l hl
-          have hs : (lookup g.labels l).isSome = true := by
-            cases hlk : lookup g.labels l <;> simp_all
-          exact (lookup_isSome_iff _ _).mp hs
-
-/-- **when selection raises**: unknown label → `ValueError`; otherwise it raises exactly when no point lies
-under the requested labels; it never raises for another reason -/
-theorem select_total {α} (g : LGraph α) (hwf : WF g) (req : List String) :
-    ((∃ l ∈ req, l ∉ g.names) → select g req = .error .value) ∧
-    ((∀ l ∈ req, l ∈ g.names) → (selMask g req).any id = false → select g req = .error .empty) ∧
-    ((∀ l ∈ req, l ∈ g.names) → (selMask g req).any id = true → req ≠ [] → ∃ g', select g req = .ok g') := by
-  refine ⟨?_, ?_, ?_⟩
-  · rintro ⟨l, hl, hn⟩
-    unfold select
-    have : req.any (fun l => (lookup g.labels l).isNone) = true := by
-      apply List.any_eq_true.mpr
-      exact ⟨l, hl, (lookup_isNone_iff _ _).mpr hn⟩
-    simp [this]
-  · intro hk hany
-    unfold select
-    have : req.any (fun l => (lookup g.labels l).isNone) = false := by
-      apply Bool.eq_false_iff.mpr
-      intro hc
-      obtain ⟨l, hl, hn⟩ := List.any_eq_true.mp hc
-      exact (lookup_isNone_iff _ _).mp hn (hk l hl)
-    simp [this, hany]
-  · intro hk hany hne
-    unfold select
-    have : req.any (fun l => (lookup g.labels l).isNone) = false := by
-      apply Bool.eq_false_iff.mpr
-      intro hc
-      obtain ⟨l, hl, hn⟩ := List.any_eq_true.mp hc
-      exact (lookup_isNone_iff _ _).mp hn (hk l hl)
-    simp only [this, Bool.false_eq_true, if_false, hany, Bool.not_true]
-    rw [fromMask_eq _ _ _ (selMask_length g req).symm hwf.edgesIn]
-    simp only [construct, restrict_covered g hwf req, Bool.not_true, Bool.false_eq_true, if_false]
-    have hne' : (restrictLabels g req (selMask g req)).isEmpty = false := by
-      unfold restrictLabels
-      cases req with
-      | nil => exact absurd rfl hne
-      | cons x xs => simp [dedup]
-    simp [hne']
-
-/-- **points**: a kept point `v` reappears unchanged at position `rank v`; every returned point is a kept
-point; kept points keep their relative (original) order and never collapse -/
-theorem select_points_exact {α} {g g' : LGraph α} (hwf : WF g) {req : List String}
-    (h : select g req = .ok g') :
-    (∀ v, (selMask g req)[v]? = some true → g'.pts[rank (selMask g req) v]? = g.pts[v]?) ∧
-    (∀ j, j < g'.pts.length → ∃ v, (selMask g req)[v]? = some true ∧ rank (selMask g req) v = j) ∧
-    (∀ u v, u < v → (selMask g req)[u]? = some true → rank (selMask g req) u < rank (selMask g req) v) := by
-  obtain ⟨_, _, hp, _, _⟩ := select_ok hwf h
-  refine ⟨?_, ?_, ?_⟩
-  · intro v hv
-    rw [hp]; exact maskFilter_rank _ _ v (selMask_length g req).symm hv
-  · intro j hj
-    rw [hp] at hj
-    exact maskFilter_surj _ _ (selMask_length g req).symm j hj
-  · intro u v huv hu
-    exact rank_strictMono _ u v huv hu
-
-/-- **edges**: exactly the edges of the original graph with both ends kept, renumbered -/
-theorem select_edges_exact {α} {g g' : LGraph α} (hwf : WF g) {req : List String}
-    (h : select g req = .ok g') (a b : Nat) :
-    (a, b) ∈ g'.edges ↔ ∃ u v, (u, v) ∈ g.edges ∧ (selMask g req)[u]? = some true ∧
-      (selMask g req)[v]? = some true ∧ a = rank (selMask g req) u ∧ b = rank (selMask g req) v := by
-  obtain ⟨_, _, _, he, _⟩ := select_ok hwf h
-  rw [he]; exact mem_inducedEdges _ _ a b
-
-/-- **labels**: the result carries the requested labels (first occurrences, in request order); each mask
-is the original one restricted to the kept points -/
-theorem select_labels_restricted {α} {g g' : LGraph α} (hwf : WF g) {req : List String}
-    (h : select g req = .ok g') :
-    g'.names = dedup req ∧
-    (∀ l ∈ req, ∀ m, lookup g.labels l = some m →
-      lookup g'.labels l = some (maskFilter m (selMask g req)) ∧
-      ∀ v, (selMask g req)[v]? = some true →
-        (maskFilter m (selMask g req))[rank (selMask g req) v]? = m[v]?) := by
-  obtain ⟨_, _, _, _, hl⟩ := select_ok hwf h
-  constructor
-  · simp [LGraph.names, hl, restrictLabels, Function.comp_def]
-  · intro l hlr m hm
-    constructor
-    · rw [hl]; unfold restrictLabels
-      rw [lookup_map_mk _ (fun l => maskFilter ((lookup g.labels l).getD []) (selMask g req)) l
-        ((mem_dedup l req).mpr hlr)]
-      simp [hm]
-    · intro v hv
-      have hlen : m.length = (selMask g req).length := by
-        rw [selMask_length]; exact hwf.maskLen _ (lookup_eq_some_mem hm)
-      exact maskFilter_rank m _ v hlen hv
-
-/-- a selection is again a well-formed labelled graph in which every point carries a label -/
-theorem select_wf_covered {α} {g g' : LGraph α} (hwf : WF g) {req : List String}
-    (h : select g req = .ok g') : WF g' ∧ Covered g' := by
-  obtain ⟨hk, _, hp, he, hl⟩ := select_ok hwf h
-  refine ⟨⟨?_, ?_, ?_⟩, ?_⟩
-  · intro p hp'
-    rw [hl] at hp'
-    unfold restrictLabels at hp'
-    obtain ⟨l, hld, rfl⟩ := List.mem_map.mp hp'
-    have hlr := (mem_dedup l req).mp hld
-    have hs := (lookup_isSome_iff _ _).mpr (hk l hlr)
-    obtain ⟨m, hm⟩ := Option.isSome_iff_exists.mp hs
-    have hlen : m.length = (selMask g req).length := by
-      rw [selMask_length]; exact hwf.maskLen _ (lookup_eq_some_mem hm)
-    simp only [hm, Option.getD_some, hp]
-    exact maskFilter_length_congr _ _ _ hlen (selMask_length g req).symm
-  · rw [(select_labels_restricted hwf h).1]; exact dedup_nodup req
-  · intro e hee
-    obtain ⟨a, b⟩ := e
-    rw [he] at hee
-    obtain ⟨u, v, _, hu, hv, rfl, rfl⟩ := (mem_inducedEdges _ _ a b).mp hee
-    rw [hp]
-    exact ⟨rank_lt_of_kept _ _ (selMask_length g req).symm u hu,
-           rank_lt_of_kept _ _ (selMask_length g req).symm v hv⟩
-  · have hc := restrict_covered g hwf req
-    rw [coveredB_iff] at hc
-    intro i hi
-    rw [hp] at hi
-    rw [hl]
-    exact hc i hi
-
-/-! ### `with_labels` / `without_labels`: label order -/
-
-/-- `with_labels`: the labels come back in the order of the request; when the request lists labels in
-their original order (a sublist of the group's labels) that is the original order -/
-theorem withLabels_order {α} {g g' : LGraph α} (hwf : WF g) {req : List String}
-    (h : withLabels g req = .ok g') :
-    g'.names = dedup req ∧ (req.Sublist g.names → g'.names = req ∧ g'.names.Sublist g.names) := by
-  have hn := (select_labels_restricted hwf h).1
-  refine ⟨hn, fun hs => ?_⟩
-  have hnd : req.Nodup := hs.nodup hwf.names
-  rw [hn, dedup_of_nodup req hnd]
-  exact ⟨rfl, hs⟩
-
-/-- repaired `without_labels`: exactly the labels not excluded, **in their original order** -/
-theorem withoutLabels_order {α} {g g' : LGraph α} (hwf : WF g) {excl : List String}
-    (h : withoutLabels g excl = .ok g') :
-    g'.names = g.names.filter (fun l => !excl.contains l) ∧ g'.names.Sublist g.names := by
-  have hn := (select_labels_restricted hwf h).1
-  have hnd : (g.names.filter fun l => !excl.contains l).Nodup := hwf.names.filter _
-  rw [hn, dedup_of_nodup _ hnd]
-  exact ⟨rfl, List.filter_sublist⟩
-
-/-- repaired `without_labels` keeps a point iff it lies under a label that is not excluded -/
-theorem withoutLabels_points {α} (g : LGraph α) (hwf : WF g) (excl : List String) (v : Nat) :
-    (selMask g (g.names.filter fun l => !excl.contains l))[v]? = some true ↔
-      v < g.pts.length ∧ ∃ p ∈ g.labels, p.1 ∉ excl ∧ p.2[v]? = some true := by
-  rw [selMask_spec]
-  constructor
-  · rintro ⟨hv, l, hl, m, hm, hmv⟩
-    simp only [List.mem_filter, Bool.not_eq_true', List.contains_eq_mem, decide_eq_false_iff_not] at hl
-    exact ⟨hv, (l, m), lookup_eq_some_mem hm, hl.2, hmv⟩
-  · rintro ⟨hv, p, hp, hpe, hpv⟩
-    refine ⟨hv, p.1, ?_, p.2, lookup_of_mem_nodup hwf.names hp, hpv⟩
-    simp only [List.mem_filter, Bool.not_eq_true', List.contains_eq_mem, decide_eq_false_iff_not]
-    exact ⟨List.mem_map_of_mem (f := Prod.fst) hp, hpe⟩
-
-/-! the behaviour coded before the repair: label order = set iteration order -/
-
-def demo : LGraph Nat :=
-  { pts := [10, 11, 12, 13, 14], edges := [(0, 1), (1, 2), (2, 3), (3, 4), (0, 4)],
-    labels := [("a", [true, true, false, false, false]), ("b", [false, true, true, false, false]),
-               ("c", [false, false, true, true, true]), ("d", [true, false, false, false, true])] }
-
-theorem demo_wf : WF demo :=
-  ⟨by decide, by decide, by decide⟩
-
-theorem demo_covered : Covered demo := by
-  have : coveredB demo.pts.length demo.labels = true := by decide
-  exact (coveredB_iff _ _).mp this
-
-/-- REFUTED for the code as found: with an admissible iteration order (a permutation, here the reverse)
-`without_labels` returns the remaining labels out of their original order -/
-theorem withoutLabelsCoded_order_refuted :
-    ∃ (order : List String → List String), (∀ l, (order l).Perm l) ∧
-      ∃ g', withoutLabelsCoded order demo ["b"] = .ok g' ∧ g'.names = ["d", "c", "a"] ∧
-        ¬ g'.names.Sublist demo.names :=
-  ⟨List.reverse, fun l => List.reverse_perm l, _, rfl, by decide, by decide⟩
-
-/-- REFUTED for the code as found: two admissible iteration orders (two hash seeds) give two different
-results for the same call — not "identical from run to run" -/
-theorem withoutLabelsCoded_run_to_run :
-    ∃ (o₁ o₂ : List String → List String), (∀ l, (o₁ l).Perm l) ∧ (∀ l, (o₂ l).Perm l) ∧
-      ∃ g₁ g₂, withoutLabelsCoded o₁ demo ["b"] = .ok g₁ ∧ withoutLabelsCoded o₂ demo ["b"] = .ok g₂ ∧
-        g₁.names ≠ g₂.names :=
-  ⟨id, List.reverse, fun _ => List.Perm.refl _, fun l => List.reverse_perm l, _, _, rfl, rfl, by decide⟩
-
-/-- what the coded `without_labels` still guarantees under any iteration order: the *set* of labels -/
-theorem withoutLabelsCoded_names_perm {α} {g g' : LGraph α} (hwf : WF g) {excl : List String}
-    (order : List String → List String) (ho : ∀ l, (order l).Perm l)
-    (h : withoutLabelsCoded order g excl = .ok g') :
-    g'.names.Perm (g.names.filter fun l => !excl.contains l) := by
-  have hn := (select_labels_restricted hwf h).1
-  have hp := ho (g.names.filter fun l => !excl.contains l)
-  have hnd : (order (g.names.filter fun l => !excl.contains l)).Nodup :=
-    hp.nodup_iff.mpr (hwf.names.filter _)
-  rw [hn, dedup_of_nodup _ hnd]
-  exact hp
-
-/-- the selected points and edges depend only on the *set* of requested labels (not on order or
-repetition of the request): under any set iteration order the coded `without_labels` still selects the
-right points and edges — only the label order is at its mercy -/
-theorem selMask_congr {α} (g : LGraph α) (req req' : List String) (h : ∀ l, l ∈ req ↔ l ∈ req') :
-    selMask g req = selMask g req' := by
-  apply List.ext_getElem (by simp [selMask_length])
-  intro v h1 h2
-  have e1 := selMask_spec g req v
-  have e2 := selMask_spec g req' v
-  rw [List.getElem?_eq_getElem h1] at e1
-  rw [List.getElem?_eq_getElem h2] at e2
-  simp only [Option.some.injEq] at e1 e2
-  have : ((selMask g req)[v] = true ↔ (selMask g req')[v] = true) := by
-    rw [e1, e2]
-    constructor
-    · rintro ⟨hv, l, hl, r⟩; exact ⟨hv, l, (h l).mp hl, r⟩
-    · rintro ⟨hv, l, hl, r⟩; exact ⟨hv, l, (h l).mpr hl, r⟩
-  exact Bool.eq_iff_iff.mpr this
-
-theorem withoutLabelsCoded_points_edges {α} {g g₁ g₂ : LGraph α} (hwf : WF g) {excl : List String}
-    (order : List String → List String) (ho : ∀ l, (order l).Perm l)
-    (h₁ : withoutLabelsCoded order g excl = .ok g₁) (h₂ : withoutLabels g excl = .ok g₂) :
-    g₁.pts = g₂.pts ∧ g₁.edges = g₂.edges := by
-  obtain ⟨_, _, hp₁, he₁, _⟩ := select_ok hwf h₁
-  obtain ⟨_, _, hp₂, he₂, _⟩ := select_ok hwf h₂
-  have := selMask_congr g _ _ (fun l => (ho (g.names.filter fun l => !excl.contains l)).mem_iff (a := l))
-  rw [hp₁, hp₂, he₁, he₂, this]
-  exact ⟨rfl, rfl⟩
-
-/-! ### `get_label` -/
-
-/-- `get_label l` returns exactly the points under `l` and the edges among them -/
-theorem getLabel_exact {α} {g : LGraph α} (hwf : WF g) {l : String} {ps : List α} {es : List (Nat × Nat)}
-    (h : getLabel g l = .ok (ps, es)) :
-    ∃ m, lookup g.labels l = some m ∧ ps = maskFilter g.pts m ∧ es = inducedEdges m g.edges ∧
-      (∀ v, m[v]? = some true → ps[rank m v]? = g.pts[v]?) ∧
-      (∀ j, j < ps.length → ∃ v, m[v]? = some true ∧ rank m v = j) := by
-  unfold getLabel at h
-  split at h
-  · cases h
-  · rename_i m hm
-    split at h
-    · cases h
-    · have hlen : g.pts.length = m.length := (hwf.maskLen _ (lookup_eq_some_mem hm)).symm
-      rw [fromMask_eq _ _ _ hlen hwf.edgesIn] at h
-      injection h with h
-      injection h with h1 h2
-      subst h1; subst h2
-      exact ⟨m, hm, rfl, rfl, fun v hv => maskFilter_rank _ _ v hlen hv,
-             fun j hj => maskFilter_surj _ _ hlen j hj⟩
-
-theorem getLabel_unknown {α} (g : LGraph α) (l : String) (h : l ∉ g.names) : getLabel g l = .error .key := by
-  unfold getLabel
-  have := (lookup_isNone_iff g.labels l).mpr h
-  cases hl : lookup g.labels l <;> simp_all
-
-/-! ### `remove_label` -/
-
-/-- `remove_label` either raises or returns the same points and edges with that one label gone, the others
-untouched and in their original order, and every point still labelled (the check cannot be bypassed) -/
-theorem removeLabel_spec {α} {g g' : LGraph α} (hwf : WF g) {l : String}
-    (h : removeLabel g l = .ok g') :
-    g'.pts = g.pts ∧ g'.edges = g.edges ∧ l ∈ g.names ∧
-    g'.names = g.names.filter (· != l) ∧ g'.names.Sublist g.names ∧
-    (∀ l', l' ≠ l → lookup g'.labels l' = lookup g.labels l') ∧ lookup g'.labels l = none ∧
-    WF g' ∧ Covered g' := by
-  unfold removeLabel at h
-  split at h
-  · cases h
-  · rename_i m hm
-    dsimp only at h
-    split at h
-    · rename_i hc
-      injection h with h
-      subst h
-      have hnames : (LGraph.names { g with labels := g.labels.filter fun p => p.1 != l }) =
-          g.names.filter (· != l) := names_filter_ne g.labels l
-      refine ⟨rfl, rfl, ?_, hnames, ?_, ?_, ?_, ⟨?_, ?_, hwf.edgesIn⟩, (coveredB_iff _ _).mp hc⟩
-      · exact (lookup_isSome_iff _ _).mp (by simp [hm])
-      · rw [hnames]; exact List.filter_sublist
-      · intro l' hne
-        simp [lookup_filter_ne, hne]
-      · simp [lookup_filter_ne]
-      · intro p hp
-        exact hwf.maskLen p (List.mem_filter.mp hp).1
-      · rw [hnames]; exact hwf.names.filter _
-    · cases h
-
-/-- removing a label that would leave a point unlabelled is refused -/
-theorem removeLabel_checks_cover {α} (g : LGraph α) (l : String) (hl : l ∈ g.names)
-    (hu : ¬ ∀ i, i < g.pts.length → ∃ p ∈ g.labels, p.1 ≠ l ∧ p.2[i]? = some true) :
-    removeLabel g l = .error .value := by
-  unfold removeLabel
-  have hs := (lookup_isSome_iff _ _).mpr hl
-  obtain ⟨m, hm⟩ := Option.isSome_iff_exists.mp hs
-  simp only [hm]
-  have : coveredB g.pts.length (g.labels.filter fun p => p.1 != l) = false := by
-    apply Bool.eq_false_iff.mpr
-    intro hc
-    rw [coveredB_iff] at hc
-    apply hu
-    intro i hi
-    obtain ⟨p, hp, hpi⟩ := hc i hi
-    have := List.mem_filter.mp hp
-    exact ⟨p, this.1, by simpa using this.2, hpi⟩
-  simp [this]
-
-/-! ### `add_label` -/
-
-theorem normAll_mem {n : Nat} {idx : List Int} {js : List Nat} (h : normAll n idx = some js) :
-    ∀ j ∈ js, j < n := by
-  induction idx generalizing js with
-  | nil => simp [normAll] at h; subst h; simp
-  | cons i is ih =>
-    simp only [normAll] at h
-    split at h
-    · rename_i j js' hj hjs
-      injection h with h
-      subst h
-      intro k hk
-      rcases List.mem_cons.mp hk with rfl | hk
-      · unfold normIdx at hj
-        split at hj
-        · injection hj with hj; omega
-        · split at hj
-          · injection hj with hj; omega
-          · cases hj
-      · exact ih hjs k hk
-    · cases h
-
-/-- repaired `add_label`: same points and edges; the label `l` now masks exactly the given indices; all
-other labels untouched and in their original order (a new name is appended, an existing name keeps its
-place); every point still labelled -/
-theorem addLabel_spec {α} {g g' : LGraph α} (hwf : WF g) {l : String} {idx : List Int}
-    (h : addLabel g l idx = .ok g') :
-    g'.pts = g.pts ∧ g'.edges = g.edges ∧
-    (∃ js, normAll g.pts.length idx = some js ∧ lookup g'.labels l = some (indexMask g.pts.length js)) ∧
-    (∀ l', l' ≠ l → lookup g'.labels l' = lookup g.labels l') ∧
-    g'.names = (if l ∈ g.names then g.names else g.names ++ [l]) ∧
-    WF g' ∧ Covered g' := by
-  unfold addLabel at h
-  split at h
-  · cases h
-  · rename_i g₁ hg₁
-    split at h
-    · rename_i hc
-      injection h with h
-      subst h
-      unfold addLabelCoded at hg₁
-      split at hg₁
-      · cases hg₁
-      · rename_i js hjs
-        injection hg₁ with hg₁
-        subst hg₁
-        have hnames : LGraph.names { g with labels := setLabel g.labels l (indexMask g.pts.length js) } =
-            if l ∈ g.names then g.names else g.names ++ [l] := names_setLabel _ _ _
-        refine ⟨rfl, rfl, ⟨js, hjs, by simp [lookup_setLabel]⟩, ?_, hnames, ⟨?_, ?_, hwf.edgesIn⟩,
-          (coveredB_iff _ _).mp hc⟩
-        · intro l' hne; simp [lookup_setLabel, hne]
-        · intro p hp
-          rcases mem_setLabel hp with rfl | hp
-          · exact indexMask_length _ _
-          · exact hwf.maskLen p hp
-        · rw [hnames]
-          split
-          · exact hwf.names
-          · rename_i hnot
-            exact List.nodup_append.mpr ⟨hwf.names, by simp, by
-              intro a ha b hb; simp at hb; subst hb; rintro rfl; exact hnot ha⟩
-    · cases h
-
-def demo2 : LGraph Nat :=
-  { pts := [10, 11, 12, 13, 14], edges := [(0, 1), (1, 2), (3, 4)],
-    labels := [("a", [true, true, true, false, false]), ("b", [false, false, false, true, true])] }
-
-theorem demo2_wf : WF demo2 := ⟨by decide, by decide, by decide⟩
-
-theorem demo2_covered : Covered demo2 := by
-  have : coveredB demo2.pts.length demo2.labels = true := by decide
-  exact (coveredB_iff _ _).mp this
-
-/-- REFUTED for the code as found: `add_label` on an existing name replaces its mask without the coverage
-check and returns a group with unlabelled points (points 0 and 2 of the probe of DESIGN section 7 #14) -/
-theorem addLabelCoded_breaks_cover :
-    WF demo2 ∧ Covered demo2 ∧
-    addLabelCoded demo2 "a" [1] = .ok { demo2 with labels :=
-      [("a", [false, true, false, false, false]), ("b", [false, false, false, true, true])] } ∧
-    ¬ Covered ({ demo2 with labels :=
-      [("a", [false, true, false, false, false]), ("b", [false, false, false, true, true])] } : LGraph Nat) := by
-  refine ⟨demo2_wf, demo2_covered, by decide, ?_⟩
-  intro hc
-  have := (coveredB_iff _ _).mpr hc
-  revert this
-  decide
-
-/-- the repaired `add_label` refuses that call -/
-theorem addLabel_refuses_uncover : addLabel demo2 "a" [1] = .error .value := by decide
-
-/-! ### the invariant over operation sequences -/
-
-theorem step_wf_covered {α} {g g' : LGraph α} (hwf : WF g) (o : Op) (h : step g o = .ok g') :
-    WF g' ∧ Covered g' := by
-  cases o with
-  | withL r => exact select_wf_covered hwf h
-  | withoutL e => exact select_wf_covered hwf h
-  | add l i => have := addLabel_spec hwf h; exact ⟨this.2.2.2.2.2.1, this.2.2.2.2.2.2⟩
-  | remove l => have := removeLabel_spec hwf h; exact ⟨this.2.2.2.2.2.2.2.1, this.2.2.2.2.2.2.2.2⟩
-
-/-- **every point always carries at least one label**: for every well-formed covered labelled graph and
-every sequence of operations (selection with / without labels, add, remove) that all succeed, the final
-group — and every intermediate one — is well formed and covered -/
-theorem run_invariant {α} (ops : List Op) : ∀ {g g' : LGraph α}, WF g → Covered g →
-    run step g ops = .ok g' → WF g' ∧ Covered g' := by
-  induction ops with
-  | nil =>
-    intro g g' hwf hc h
-    simp only [run] at h
-    injection h with h; subst h
-    exact ⟨hwf, hc⟩
-  | cons o os ih =>
-    intro g g' hwf hc h
-    simp only [run] at h
-    split at h
-    · cases h
-    · rename_i g₁ hg₁
-      obtain ⟨hwf₁, hc₁⟩ := step_wf_covered hwf o hg₁
-      exact ih hwf₁ hc₁ h
-
-/-- REFUTED for the code as found: a succeeding sequence that ends in a group with unlabelled points,
-which a later selection of *all* labels then silently drops (4 of 5 points survive) -/
-theorem runCoded_breaks_invariant :
-    run (stepCoded id) demo2 [.add "c" [0], .add "a" [1]] = .ok { demo2 with labels :=
-      [("a", [false, true, false, false, false]), ("b", [false, false, false, true, true]),
-       ("c", [true, false, false, false, false])] } ∧
-    ¬ Covered ({ demo2 with labels :=
-      [("a", [false, true, false, false, false]), ("b", [false, false, false, true, true]),
-       ("c", [true, false, false, false, false])] } : LGraph Nat) ∧
-    (withLabels ({ demo2 with labels :=
-      [("a", [false, true, false, false, false]), ("b", [false, false, false, true, true]),
-       ("c", [true, false, false, false, false])] } : LGraph Nat) ["a", "b", "c"]).map (fun g => g.pts) =
-      .ok [10, 11, 13, 14] := by
-  refine ⟨by decide, ?_, by decide⟩
-  intro hc
-  have := (coveredB_iff _ _).mpr hc
-  revert this
-  decide
-
-/-! ### labellers: pure re-indexing -/
-
-theorem gather_map {α β} (f : α → β) (xs : List α) (ind : List Nat) :
-    (gather xs ind).map f = gather (xs.map f) ind := by
-  unfold gather
-  induction ind with
-  | nil => rfl
-  | cons i is ih =>
-    simp only [List.filterMap_cons, List.getElem?_map]
-    cases xs[i]? <;> simp [ih]
-
-theorem nodupB_iff {β} [BEq β] [LawfulBEq β] (l : List β) : nodupB l = true ↔ l.Nodup := by
-  induction l with
-  | nil => simp [nodupB]
-  | cons x xs ih =>
-    simp only [nodupB, Bool.and_eq_true, Bool.not_eq_true', List.nodup_cons, ih]
-    constructor
-    · rintro ⟨h1, h2⟩
-      exact ⟨by simpa using h1, h2⟩
-    · rintro ⟨h1, h2⟩
-      exact ⟨by simpa using h1, h2⟩
-
-theorem gather_in_range {α} (xs : List α) (ind : List Nat) (h : ∀ i ∈ ind, i < xs.length) :
-    (gather xs ind).length = ind.length ∧ ∀ j, j < ind.length → (gather xs ind)[j]? = xs[ind[j]!]? := by
-  unfold gather
-  induction ind with
-  | nil => simp
-  | cons i is ih =>
-    have hi : i < xs.length := h i List.mem_cons_self
-    obtain ⟨ih1, ih2⟩ := ih (fun k hk => h k (List.mem_cons_of_mem _ hk))
-    simp only [List.filterMap_cons, List.getElem?_eq_getElem hi, List.length_cons, ih1, true_and]
-    intro j hj
-    cases j with
-    | zero => simp [List.getElem?_eq_getElem hi]
-    | succ j => simpa using ih2 j (by omega)
-
-/-- a mapped `Except` result -/
-def mapPts {α β} (f : α → β) (g : LGraph α) : LGraph β :=
-  { pts := g.pts.map f, edges := g.edges, labels := g.labels }
-
-/-- **rejects input of the wrong size** and accepts every input of the expected size -/
-theorem labeller_size {α} (t : Labeller) (xs : List α) :
-    (xs.length ≠ t.nExpected → t.apply xs = .error .labelling) ∧
-    (xs.length = t.nExpected → ∃ g, t.apply xs = .ok g) := by
-  unfold Labeller.apply
-  constructor
-  · intro h; simp [h]
-  · intro h; simp [h]
-
-/-- **commutes with any transform of the input** (any function on points, not only affine maps) -/
-theorem labeller_commutes {α β} (t : Labeller) (f : α → β) (xs : List α) :
-    t.apply (xs.map f) = (t.apply xs).map (mapPts f) := by
-  unfold Labeller.apply
-  simp only [List.length_map]
-  split
-  · rfl
-  · simp [Except.map, mapPts, gather_map]
-
-/-- **output points are distinct input points**: output `j` is input `ind[j]`, all positions exist and
-no input position is used twice -/
-theorem labeller_reindexes {α} (t : Labeller) (hwf : labellerWF t = true) (xs : List α) (g : LGraph α)
-    (h : t.apply xs = .ok g) :
-    g.pts.length = t.ind.length ∧
-    (∀ j, j < t.ind.length → t.ind[j]! < xs.length ∧ g.pts[j]? = xs[t.ind[j]!]?) ∧
-    t.ind.Nodup := by
-  simp only [labellerWF, Bool.and_eq_true] at hwf
-  obtain ⟨⟨⟨⟨⟨hr, hn⟩, _⟩, _⟩, _⟩, _⟩ := hwf
-  unfold Labeller.apply at h
-  split at h
-  · cases h
-  · rename_i hlen
-    simp only [bne_iff_ne, ne_eq, Decidable.not_not] at hlen
-    injection h with h
-    subst h
-    have hin : ∀ i ∈ t.ind, i < xs.length := by
-      intro i hi
-      have := List.all_eq_true.mp hr i hi
-      simp only [decide_eq_true_eq] at this
-      omega
-    obtain ⟨h1, h2⟩ := gather_in_range xs t.ind hin
-    refine ⟨h1, ?_, (nodupB_iff _).mp hn⟩
-    intro j hj
-    refine ⟨?_, h2 j hj⟩
-    have : t.ind[j]! = t.ind[j] := by simp [hj]
-    rw [this]
-    exact hin _ (List.getElem_mem hj)
-
-/-- **every output point is labelled**; masks are as long as the output, label names distinct -/
-theorem labeller_all_labelled {α} (t : Labeller) (hwf : labellerWF t = true) (xs : List α) (g : LGraph α)
-    (h : t.apply xs = .ok g) :
-    Covered g ∧ (∀ p ∈ g.labels, p.2.length = g.pts.length) ∧ g.names.Nodup := by
-  have hre := labeller_reindexes t hwf xs g h
-  simp only [labellerWF, Bool.and_eq_true] at hwf
-  obtain ⟨⟨⟨⟨⟨_, _⟩, hcov⟩, _⟩, _⟩, hnm⟩ := hwf
-  unfold Labeller.apply at h
-  split at h
-  · cases h
-  · injection h with h
-    subst h
-    refine ⟨?_, ?_, ?_⟩
-    · intro i hi
-      rw [hre.1] at hi
-      have := List.all_eq_true.mp hcov i (List.mem_range.mpr hi)
-      obtain ⟨p, hp, hpi⟩ := List.any_eq_true.mp this
-      refine ⟨(p.1, indexMask t.ind.length p.2), List.mem_map.mpr ⟨p, hp, rfl⟩, ?_⟩
-      exact (indexMask_get _ _ _).mpr ⟨hi, by simpa using hpi⟩
-    · intro p hp
-      obtain ⟨q, _, rfl⟩ := List.mem_map.mp hp
-      simp only [indexMask_length]
-      exact hre.1.symm
-    · simp only [LGraph.names, List.map_map, Function.comp_def]
-      exact (nodupB_iff _).mp hnm
-
-/-- with in-range connectivity the output is a well-formed covered labelled graph: everything proved
-about selection above applies to the output of a labeller -/
-theorem labeller_output_wf {α} (t : Labeller) (hwf : labellerWF t = true) (he : labellerEdgesWF t = true)
-    (xs : List α) (g : LGraph α) (h : t.apply xs = .ok g) : WF g ∧ Covered g := by
-  obtain ⟨hc, hm, hn⟩ := labeller_all_labelled t hwf xs g h
-  have hre := labeller_reindexes t hwf xs g h
-  refine ⟨⟨hm, hn, ?_⟩, hc⟩
-  unfold Labeller.apply at h
-  split at h
-  · cases h
-  · injection h with h
-    subst h
-    intro e hee
-    have := List.all_eq_true.mp he e hee
-    simp only [Bool.and_eq_true, decide_eq_true_eq] at this
-    show e.1 < (gather xs t.ind).length ∧ e.2 < (gather xs t.ind).length
-    have hl : (gather xs t.ind).length = t.ind.length := hre.1
-    rw [hl]; exact this
-
-/-! ### non-vacuity: the hypotheses are satisfiable on concrete non-trivial values -/
-
-example : withLabels demo ["c", "a"] = .ok
-    { pts := [10, 11, 12, 13, 14], edges := [(0, 1), (1, 2), (2, 3), (3, 4), (0, 4)],
-      labels := [("c", [false, false, true, true, true]), ("a", [true, true, false, false, false])] } := by
-  decide
-example : withoutLabels demo ["a", "d"] = .ok
-    { pts := [11, 12, 13, 14], edges := [(0, 1), (1, 2), (2, 3)],
-      labels := [("b", [true, true, false, false]), ("c", [false, true, true, true])] } := by decide
-example : getLabel demo "d" = .ok ([10, 14], [(0, 1)]) := by decide
-example : removeLabel demo "d" = .ok { demo with labels := demo.labels.take 3 } := by decide
-example : removeLabel demo "c" = .error .value := by decide
-example : withLabels demo ["zz"] = .error .value := by decide
-example : withLabels demo [] = .error .empty := by decide
-example : (addLabel demo "e" [-1, 0]).map LGraph.names = .ok ["a", "b", "c", "d", "e"] := by decide
-example : (run step demo [.add "e" [2, 3], .withoutL ["c"], .remove "b", .withL ["d", "a"]]).map
-    (fun g => (g.pts, g.names)) = .ok ([10, 11, 14], ["d", "a"]) := by decide
-
-def demoLabeller : Labeller :=
-  { nExpected := 5, ind := [4, 0, 2], labels := [("x", [0, 1]), ("y", [1, 2])], edges := [(0, 1), (1, 2)] }
-example : labellerWF demoLabeller = true ∧ labellerEdgesWF demoLabeller = true := by decide
-example : (demoLabeller.apply [10, 11, 12, 13, 14]).map LGraph.pts = .ok [14, 10, 12] := by decide
-example : demoLabeller.apply [10, 11, 12, 13] = .error .labelling := by decide
-
-end MenpoModel.C15
+import MenpoModel.Props.C15Base
+import MenpoModel.Props.C15Sel
+import MenpoModel.Props.C15Rename
+import MenpoModel.Props.C15Lab
+import MenpoModel.Props.C15Entry
